@@ -10,6 +10,7 @@ import (
 	"encoding/json"
 	"fmt"
 	"hash"
+	"hash/crc32"
 
 	"github.com/pion/stun/v3/zzverif/hmacx"
 	"github.com/pion/stun/v3/zzverif/sched"
@@ -20,15 +21,72 @@ import (
 
 // C18: pooled HMAC equals standard HMAC for every key, message and reuse history.
 
-var c18KeyLens = []int{0, 1, 20, 64, 65, 300}
-var c18ChunkLens = []int{0, 1, 63, 65}
+// Keys 0..5: one per length. Keys 6..9 are twins that a recycled object could confuse with a base key:
+// 6: 20 bytes, different content, same CRC-32 as key 2; 7: key 2 reversed (same length, byte sum and xor);
+// 8: key 4 (65 B) with the last byte changed (same first block); 9: key 3 (64 B) with the first byte changed.
+var c18KeyLens = []int{0, 1, 20, 64, 65, 300, 20, 20, 65, 64}
+
+const c18BaseKeys = 6
+
+var c18TwinOf = map[int]int{6: 2, 7: 2, 8: 4, 9: 3}
+
+// Chunks 0..3 are the script alphabet; 4..6 exist for the 64 KiB histories.
+var c18ChunkLens = []int{0, 1, 63, 65, 32768, 65535, 65536}
+
+const c18ScriptChunks = 4
 
 func c18Key(i int) []byte {
+	if b, ok := c18TwinOf[i]; ok {
+		k := c18Key(b)
+		switch i {
+		case 6:
+			want := crc32.ChecksumIEEE(k)
+			for j := 0; j < 16; j++ {
+				k[j] ^= 0x5A
+			}
+			forceCRC32(k, want)
+			if crc32.ChecksumIEEE(k) != want || bytes.Equal(k, c18Key(b)) {
+				panic("c18: CRC twin construction failed")
+			}
+		case 7:
+			for l, r := 0, len(k)-1; l < r; l, r = l+1, r-1 {
+				k[l], k[r] = k[r], k[l]
+			}
+		case 8:
+			k[len(k)-1] ^= 0x80
+		case 9:
+			k[0] ^= 0x01
+		}
+		return k
+	}
 	k := make([]byte, c18KeyLens[i])
 	for j := range k {
 		k[j] = byte(j*7 + i*13 + 1)
 	}
 	return k
+}
+
+// forceCRC32 rewrites the last 4 bytes of b so that crc32.ChecksumIEEE(b) == want.
+func forceCRC32(b []byte, want uint32) {
+	tbl := crc32.IEEETable
+	n := len(b) - 4
+	reg := ^crc32.ChecksumIEEE(b[:n]) // register after the prefix
+	f := ^want
+	var idx [4]int
+	r := f
+	for i := 3; i >= 0; i-- {
+		for t := 0; t < 256; t++ {
+			if tbl[t]>>24 == r>>24 {
+				idx[i] = t
+				r = (r ^ tbl[t]) << 8
+				break
+			}
+		}
+	}
+	for i := 0; i < 4; i++ {
+		b[n+i] = byte(reg) ^ byte(idx[i])
+		reg = reg>>8 ^ tbl[idx[i]]
+	}
 }
 
 func c18Chunk(i int) []byte {
@@ -251,7 +309,7 @@ func c18Explore(c *Ctx, k c18Case, pre int) {
 // c18Scripts returns every sequence of at most n operations over {write(chunk), sum, reset} on slot s.
 func c18Scripts(n, slot int) [][]hop {
 	var alpha []hop
-	for ci := range c18ChunkLens {
+	for ci := 0; ci < c18ScriptChunks; ci++ {
 		alpha = append(alpha, hop{Op: "write", Slot: slot, Arg: ci})
 	}
 	alpha = append(alpha, hop{Op: "sum", Slot: slot}, hop{Op: "reset", Slot: slot})
@@ -284,6 +342,13 @@ func init() {
 				for k1 := range c18KeyLens {
 					for _, s1 := range scripts {
 						for k2 := range c18KeyLens {
+							// twins meet their base key, themselves and each other; base keys meet every base key
+							if b1, t1 := c18TwinOf[k1]; t1 && k2 != b1 && k2 != k1 && c18TwinOf[k2] != b1 {
+								continue
+							}
+							if b2, t2 := c18TwinOf[k2]; t2 && k1 != b2 && k1 != k2 && c18TwinOf[k1] != b2 {
+								continue
+							}
 							item++
 							if !c.Mine(item) {
 								continue
@@ -301,7 +366,7 @@ func init() {
 								c.DistinctByConstruction++
 								c18Explore(c, c18Case{SHA256: sha256on, Ops: ops}, 0)
 								if l3 > 0 && len(s1) <= l3 && len(s2) <= l3 {
-									for k3 := range c18KeyLens {
+									for k3 := 0; k3 < c18BaseKeys; k3++ {
 										for _, s3 := range c18Scripts(l3, 0) {
 											ops3 := append(append([]hop(nil), ops...), hop{Op: "acquire", Slot: 0, Arg: k3})
 											ops3 = append(ops3, s3...)
@@ -312,6 +377,33 @@ func init() {
 									}
 								}
 							}
+						}
+					}
+				}
+			}
+			// (1b) totals of exactly 64 KiB and 128 KiB between keying and Reset / Sum (a STUN length is a 16-bit quantity)
+			for _, sha256on := range []bool{false, true} {
+				for _, ki := range []int{1, 4} {
+					for _, split := range [][]int{{6}, {5, 1}, {4, 4}, {6, 6}, {4, 5, 1, 4}, {6, 1}} {
+						for _, tail := range [][]hop{
+							{{Op: "reset"}, {Op: "write", Arg: 1}, {Op: "sum"}},
+							{{Op: "sum"}, {Op: "reset"}, {Op: "write", Arg: 3}, {Op: "sum"}},
+							{{Op: "reset"}, {Op: "sum"}},
+							{{Op: "sum"}},
+							{{Op: "reset"}, {Op: "reset"}, {Op: "write", Arg: 2}, {Op: "sum"}},
+						} {
+							item++
+							if !c.Mine(item) {
+								continue
+							}
+							ops := []hop{{Op: "acquire", Arg: ki}}
+							for _, ci := range split {
+								ops = append(ops, hop{Op: "write", Arg: ci})
+							}
+							ops = append(ops, tail...)
+							ops = append(ops, hop{Op: "put"}, hop{Op: "acquire", Arg: ki}, hop{Op: "write", Arg: 1}, hop{Op: "sum"}, hop{Op: "put"})
+							c.DistinctByConstruction++
+							c18Explore(c, c18Case{SHA256: sha256on, Ops: ops}, 0)
 						}
 					}
 				}
